@@ -314,3 +314,34 @@ def result_branch(fn, call_term, max_hops=6):
             break
         t = nxt
     raise AnchorError("the result of %s in %s is not branched on" % (call_term.callee, fn.id))
+
+
+def forward_flow(fn, start_local, sink_pred, through_calls=True, max_iter=40):
+    """Forward may-flow: does the value in start_local reach a call satisfying sink_pred (as an argument),
+    or the return place?  Flows through copies/refs/casts/aggregates/field reads and through calls
+    (argument -> destination).  Returns ('sink', term) / ('return', None) / None."""
+    tainted = {start_local}
+    for _ in range(max_iter):
+        grew = False
+        for b in fn.blocks:
+            for s in b.stmts:
+                if s.dst is None:
+                    continue
+                if any(p.local in tainted for p in s.reads()):
+                    if s.dst.local not in tainted:
+                        tainted.add(s.dst.local)
+                        grew = True
+            t = b.term
+            if t.op == "call":
+                hit = any(p is not None and p.local in tainted for p in t.arg_places())
+                if hit:
+                    if sink_pred(t):
+                        return ("sink", t)
+                    if through_calls and t.dst is not None and t.dst.local not in tainted:
+                        tainted.add(t.dst.local)
+                        grew = True
+        if 0 in tainted:
+            return ("return", None)
+        if not grew:
+            break
+    return None
